@@ -56,6 +56,15 @@ module.exports = mk({
       r.stats.states++; r.stats.transitions++
       leaves.push({ fam: 'names', key: 'names¦' + String(JSON.stringify(pre)).slice(0, 12) + '¦' + dst + '¦' + pi, code: progs[pi], config: cfg, desc: 'names prefix=' + String(JSON.stringify(pre)).slice(0, 12) + ' dst=' + dst })
     }
+    // top-level bindings named like the helpers the prologue uses internally (they live inside its own function)
+    for (const name of ['noop', 'globals', 'res', 'eval2']) {
+      const decls = { var: `var ${name} = 1;`, let: `let ${name} = 1;`, const: `const ${name} = () => 1;`, function: `function ${name}() {}`, class: `class ${name} {}`, import: `import ${name} from './m.js';`, import_named: `import { ${name} } from './m.js';`, param: `function outer(${name}) { return ${name} }` }
+      for (const [dk, d] of Object.entries(decls)) for (const cfgName of ['FULL', 'COMMENTS']) {
+        const isMod = dk.startsWith('import')
+        r.stats.states++; r.stats.transitions++
+        leaves.push({ fam: 'helpers', key: 'helpers¦' + name + '¦' + dk + '¦' + cfgName, code: `${d}\n${isMod ? 'export ' : ''}function main(a, b) { return a + b + String(typeof ${name}) }\n`, config: cfgName, desc: 'helper-name ' + name + ' ' + dk })
+      }
+    }
     return { leaves, stats: addStats(r.stats, e.stats) }
   },
   requests (leaf) {
